@@ -282,7 +282,7 @@ func (v *SemVer) String() string {
 func (v *SemVer) ToKey(b *bytes.Buffer) {
 	b.WriteByte(1)
 	b.WriteByte(HkVersion)
-	v.Version().ToString(b)
+	appendKeyBytes(b, v.Version().String())
 }
 
 func (v *SemVer) ToString(b io.Writer, s px.FormatContext, g px.RDetect) {
